@@ -27,10 +27,45 @@ pub fn stub_history_get(_h: &sa::HistoryTable, _p: Player, _m: Move) -> i32 {
 
 pub const MAXN: usize = 64;
 
+// Per corpus position the move lists and exchange verdicts are CONCRETE data computed natively by the real
+// generate_captures / generate_quiets / see of this tree (driver dump). The picker's own staging, scoring,
+// selection and cursor logic is what runs symbolically.
+pub static mut CAPS: [u16; MAXN] = [0; MAXN];
+pub static mut NCAPS: usize = 0;
+pub static mut QUIETS: [u16; MAXN] = [0; MAXN];
+pub static mut NQUIETS: usize = 0;
+pub static mut SEE_OK: [bool; MAXN] = [false; MAXN];
+
+pub fn stub_gen_captures(_g: &Game, moves: &mut MoveList, _c: &mut crate::chess::movegen::MovegenCache) {
+    let mut i = 0;
+    unsafe { while i < NCAPS { moves.push(move_of(CAPS[i])); i += 1; } }
+}
+pub fn stub_gen_quiets(_g: &Game, moves: &mut MoveList, _c: &crate::chess::movegen::MovegenCache) {
+    let mut i = 0;
+    unsafe { while i < NQUIETS { moves.push(move_of(QUIETS[i])); i += 1; } }
+}
+pub fn stub_see(_g: &Game, mv: Move, _t: crate::engine::eval::Eval) -> bool {
+    let w = raw_of(mv);
+    let mut r = false;
+    let mut i = 0;
+    unsafe { while i < NCAPS { if CAPS[i] == w { r = SEE_OK[i]; } i += 1; } }
+    r
+}
+
 fn any_opt_move() -> Option<Move> { let w: u16 = kani::any(); if w == 0 { None } else { Some(move_of(w)) } }
 
 /// run a picker to exhaustion on a concrete position with symbolic ordering tables
-pub fn run(p: &BPos, loud: bool, n_legal: usize) {
+pub fn run(p: &BPos, loud: bool, use_hash: bool, caps: &[u16], see_ok: &[bool], quiets: &[u16]) {
+    let n_legal = caps.len() + quiets.len();
+    unsafe {
+        let mut i = 0;
+        while i < caps.len() { CAPS[i] = caps[i]; SEE_OK[i] = see_ok[i]; i += 1; }
+        NCAPS = caps.len();
+        let mut i = 0;
+        while i < quiets.len() { QUIETS[i] = quiets[i]; i += 1; }
+        NQUIETS = quiets.len();
+    }
+    let legal = |i: usize| -> u16 { if i < caps.len() { caps[i] } else { quiets[i - caps.len()] } };
     let mut game = pos::game_of(p);
     // the previous move only selects the counter-move cell; fixed (e7e5 / none) so that the 8192-cell table is indexed concretely
     let has_prev: bool = kani::any();
@@ -40,9 +75,6 @@ pub fn run(p: &BPos, loud: bool, n_legal: usize) {
         en_passant_target: None, halfmove_clock: 0, zobrist: ZobristHash(0),
         incremental_eval: IncrementalEvalFields { phase_value: 0, piece_square_tables: PhasedEval::ZERO },
     });
-    let mut legal = MoveList::new();
-    crate::chess::movegen::generate_legal_moves(&game, &mut legal);
-    assert!(legal.len() == n_legal); // the driver's count for this FEN (keeps the unwind bound honest)
     let options = EngineOptions { hash_size: 1, threads: 1, move_overhead: 0, syzygy_path: None };
     let restrictions = SearchRestrictions { depth: None };
     let (mut ts, ctl) = TimeStrategy::new(&game, &TimeControl::Infinite, &options);
@@ -58,11 +90,10 @@ pub fn run(p: &BPos, loud: bool, n_legal: usize) {
     // counter move: anything
     if let (Some(pm), Some(cm)) = (prev, any_opt_move()) { ctx.countermove_table.set(game.player, pm, cm); }
     // hash move: none, or any legal move
-    let use_hash: bool = kani::any();
     let hi: usize = kani::any();
-    kani::assume(hi < n_legal);
-    let hash_move = if use_hash && !loud { Some(legal[hi]) } else { None };
-    #[cfg(test)] println!("REPLAY-CASE {{\"fen\":\"{}\",\"loud\":{},\"hash\":{:?},\"killers\":[{:?},{:?}],\"prev\":{:?},\"plies\":{}}}", pos::fen_of(p), loud, hash_move, k0, k1, prev, plies);
+    kani::assume(hi < n_legal || n_legal == 0);
+    let hash_move = if use_hash && !loud && n_legal > 0 { Some(move_of(legal(hi))) } else { None };
+    #[cfg(test)] println!("REPLAY-CASE {{\"fen\":\"{}\",\"loud\":{},\"hash\":{:?},\"killers\":[{:?},{:?}],\"prev\":{:?}}}", pos::fen_of(p), loud, hash_move, k0, k1, prev);
     let mut picker = if loud { MovePicker::new_loud() } else { MovePicker::new(hash_move) };
     let mut out = [0u16; MAXN];
     let mut n = 0usize;
@@ -78,13 +109,14 @@ pub fn run(p: &BPos, loud: bool, n_legal: usize) {
     // every yielded move is legal and yielded once; every legal move (full) / capture or queen promotion (loud) is yielded
     let mut i = 0;
     while i < n_legal {
-        let m = raw_of(legal[i]);
+        let m = legal(i);
         let mut cnt = 0;
         let mut j = 0;
         while j < n { if out[j] == m { cnt += 1; } j += 1; }
         if loud {
             assert!(cnt <= 1);
-            let must = legal[i].is_capture() || legal[i].promotion() == Some(crate::chess::piece::PromotionPieceKind::Queen);
+            let mv = move_of(m);
+            let must = mv.is_capture() || mv.promotion() == Some(crate::chess::piece::PromotionPieceKind::Queen);
             if must { assert!(cnt == 1); }
         } else {
             assert!(cnt == 1);
@@ -95,12 +127,12 @@ pub fn run(p: &BPos, loud: bool, n_legal: usize) {
     while j < n {
         let mut found = false;
         let mut i = 0;
-        while i < n_legal { if raw_of(legal[i]) == out[j] { found = true; } i += 1; }
+        while i < n_legal { if legal(i) == out[j] { found = true; } i += 1; }
         assert!(found);
         j += 1;
     }
     if !loud { assert!(n == n_legal); }
-    kani::cover!(use_hash && k0.is_some() && k1.is_some());
+    kani::cover!(k0.is_some() && k1.is_some() && has_prev);
     std::mem::forget(ctx);
     std::mem::forget(ps);
     std::mem::forget(ts);
